@@ -23,6 +23,9 @@ import (
 	"github.com/shutter-network/rolling-shutter/rolling-shutter/p2pmsg"
 )
 
+// sigKeyWithheld: see KNOWN_FINDINGS.json (C01).
+const sigKeyWithheld = "key-withheld-while-another-identity-of-the-message-is-incomplete"
+
 // C01 — a derived decryption key is the unique correct key, from any t valid shares.
 // Layer A: the in-memory aggregation (epochkg.EpochKG).
 
@@ -427,7 +430,7 @@ func TestC01_Exhaustive(t *testing.T) {
 
 func TestC01_HandlerPipeline(t *testing.T) {
 	rec := recorder("C01")
-	rec.AddRule("layer B (handler pipeline on one core keyper node, real schema on pgfake): key-share messages for 1-2 identity groups (each group always sent as a whole, sorted, as honest keypers do) from senders 1..n-1 of kinds {valid, one share made for another identity, shares made with a foreign eon key set, shares of two identities swapped, two shares moved by +D/-D (wrong each, right in sum), repeat of an earlier message} pass through the real combined validator and, if accepted, the real handler; model as in layer A per group; after every message: junk is rejected and leaves decryption_key_share / decryption_key untouched, a DecryptionKeys message is emitted exactly at the transition to t distinct valid senders and carries exactly the eon's keys for the group, the key table holds exactly the model's keys. non-trivial as in layer A")
+	rec.AddRule("layer B (handler pipeline on one core keyper node, real schema on pgfake): key-share messages for 1-2 identity groups (each group always sent as a whole, sorted, as honest keypers do; in a third of the two-group cases the second group repeats an identity of the first) from senders 1..n-1 of kinds {valid, one share made for another identity, shares made with a foreign eon key set, shares of two identities swapped, two shares moved by +D/-D (wrong each, right in sum), repeat of an earlier message} pass through the real combined validator and, if accepted, the real handler; model per identity (distinct valid senders, key stored); after every message: junk is rejected and leaves decryption_key_share / decryption_key untouched, a DecryptionKeys message is emitted exactly at the transition to t distinct valid senders and carries exactly the eon's keys for the group, the key table holds exactly the model's keys. non-trivial as in layer A")
 	ctx := context.Background()
 	runRapid(t, N(120, 1500), func(rt *rapid.T) {
 		n := rapid.SampledFrom([]int{2, 3, 3, 4, 4, 5}).Draw(rt, "n")
@@ -469,6 +472,15 @@ func TestC01_HandlerPipeline(t *testing.T) {
 			}
 			groups = append(groups, ids)
 		}
+		overlap := false
+		if ngroups == 2 && len(groups[1]) < 3 && rapid.IntRange(0, 2).Draw(rt, "groupsOverlap") == 0 {
+			// the second request repeats an identity of the first one (a keyper asked again while the first key
+			// is not known yet): shares of that identity arrive in messages of both shapes
+			shared := groups[0][rapid.IntRange(0, len(groups[0])-1).Draw(rt, "sharedIdentity")]
+			groups[1] = append(groups[1], shared)
+			sort.Slice(groups[1], func(i, j int) bool { return bytes.Compare(groups[1][i], groups[1][j]) < 0 })
+			overlap = true
+		}
 		type elem struct {
 			kind   string
 			sender int
@@ -509,9 +521,12 @@ func TestC01_HandlerPipeline(t *testing.T) {
 			}
 			return mustMarshalP2P(m)
 		}
-		valid := map[int]map[int]bool{}
-		derived := map[int]bool{}
-		junkBefore := map[int]bool{}
+		// model, per identity: the distinct senders whose valid share for it was handled, and whether its key
+		// is in the key table. The handler answers a share message with a keys message for exactly the
+		// identities of that message once every one of them has t senders (and not all keys are stored yet).
+		senders := map[string]map[int]bool{}
+		stored := map[string]bool{}
+		derivedAny, junkSeen, junkBeforeKey, quirk := false, false, false, 0
 		var hist []elem
 		var desc []string
 		ln := rapid.IntRange(1, 3*n+4).Draw(rt, "histLen")
@@ -534,7 +549,7 @@ func TestC01_HandlerPipeline(t *testing.T) {
 				desc = append(desc, fmt.Sprintf("%s(k%d g%d)", kind, e.sender, e.group))
 			}
 			hist = append(hist, e)
-			history := fmt.Sprintf("n=%d t=%d groups=%d eons=%q | %s", n, th, ngroups, restart, strings.Join(desc, " "))
+			history := fmt.Sprintf("n=%d t=%d groups=%d overlap=%v eons=%q | %s", n, th, ngroups, overlap, restart, strings.Join(desc, " "))
 			before := node.DB.Srv.DumpData()
 			v := node.Validate(kprtopics.DecryptionKeyShares, e.data)
 			if v.Panicked != nil {
@@ -547,9 +562,7 @@ func TestC01_HandlerPipeline(t *testing.T) {
 				if node.DB.Srv.DumpData() != before {
 					fatalf(rt, "junk-share-changed-state", "rejected share message changed the database\nhistory: %s", history)
 				}
-				if !derived[e.group] {
-					junkBefore[e.group] = true
-				}
+				junkSeen = true
 				continue
 			}
 			if !v.Accepted() {
@@ -559,71 +572,145 @@ func TestC01_HandlerPipeline(t *testing.T) {
 			if h.Panicked != nil || h.Err != nil {
 				fatalf(rt, "handler-failed", "handler failed on an accepted share message: %v %v\nhistory: %s", h.Err, h.Panicked, history)
 			}
-			if valid[e.group] == nil {
-				valid[e.group] = map[int]bool{}
+			ids := groups[e.group]
+			allStored, complete := true, true
+			for _, id := range ids {
+				if senders[string(id)] == nil {
+					senders[string(id)] = map[int]bool{}
+				}
+				if senders[string(id)][e.sender] {
+					junkSeen = true // a repeated sender
+				}
+				senders[string(id)][e.sender] = true
+				allStored = allStored && stored[string(id)]
+				complete = complete && len(senders[string(id)]) >= th
 			}
-			fresh := !valid[e.group][e.sender]
-			if !fresh && !derived[e.group] {
-				junkBefore[e.group] = true
-			}
-			valid[e.group][e.sender] = true
-			transition := !derived[e.group] && len(valid[e.group]) >= th
 			var keysOut []*p2pmsg.DecryptionKeys
 			for _, m := range h.Out {
 				if k, ok := m.(*p2pmsg.DecryptionKeys); ok {
 					keysOut = append(keysOut, k)
 				}
 			}
-			if transition {
-				derived[e.group] = true
+			if !allStored && complete {
+				derivedAny = true
+				junkBeforeKey = junkBeforeKey || junkSeen
 				if len(keysOut) != 1 {
-					fatalf(rt, "no-keys-at-threshold", "%d DecryptionKeys messages emitted when group %d reached %d distinct valid senders (t=%d)\nhistory: %s", len(keysOut), e.group, len(valid[e.group]), th, history)
+					fatalf(rt, "no-keys-at-threshold", "%d DecryptionKeys messages emitted when every identity of group %d had %d distinct valid senders\nhistory: %s", len(keysOut), e.group, th, history)
 				}
-				if len(keysOut[0].Keys) != len(groups[e.group]) {
-					fatalf(rt, "wrong-keys-message", "keys message carries %d keys for a group of %d\nhistory: %s", len(keysOut[0].Keys), len(groups[e.group]), history)
+				if len(keysOut[0].Keys) != len(ids) {
+					fatalf(rt, "wrong-keys-message", "keys message carries %d keys for a group of %d\nhistory: %s", len(keysOut[0].Keys), len(ids), history)
 				}
 				for i, k := range keysOut[0].Keys {
-					ref, _ := f.Real.EpochSecretKey(identitypreimage.IdentityPreimage(groups[e.group][i]))
-					if !bytes.Equal(k.IdentityPreimage, groups[e.group][i]) || !bytes.Equal(k.Key, ref.Marshal()) {
+					ref, _ := f.Real.EpochSecretKey(identitypreimage.IdentityPreimage(ids[i]))
+					if !bytes.Equal(k.IdentityPreimage, ids[i]) || !bytes.Equal(k.Key, ref.Marshal()) {
 						fatalf(rt, "wrong-key", "emitted key %d of group %d is not the eon's key for that identity\nhistory: %s", i, e.group, history)
 					}
+					stored[string(ids[i])] = true
 				}
-			} else if len(keysOut) > 0 && !derived[e.group] {
-				fatalf(rt, "key-from-fewer-than-t", "keys message emitted with %d distinct valid senders (t=%d)\nhistory: %s", len(valid[e.group]), th, history)
+			} else if len(keysOut) > 0 {
+				if !complete {
+					fatalf(rt, "key-from-fewer-than-t", "keys message emitted although an identity of group %d has fewer than t=%d distinct valid senders\nhistory: %s", e.group, th, history)
+				}
+				fatalf(rt, "keys-emitted-again", "keys message emitted although every key of group %d was stored already\nhistory: %s", e.group, history)
 			}
 			// key table == model
 			have := map[string][]byte{}
 			for _, r := range node.DB.Srv.Rows("decryption_key") {
 				have[string(r["epoch_id"].([]byte))] = r["decryption_key"].([]byte)
 			}
-			for g, ids := range groups {
-				for _, id := range ids {
+			for g, gids := range groups {
+				for _, id := range gids {
 					ref, _ := f.Real.EpochSecretKey(identitypreimage.IdentityPreimage(id))
 					got, ok := have[string(id)]
-					if derived[g] && (!ok || !bytes.Equal(got, ref.Marshal())) {
-						fatalf(rt, "wrong-key-stored", "key table does not hold the eon's key for an identity of group %d after its threshold was reached\nhistory: %s", g, history)
+					if stored[string(id)] && (!ok || !bytes.Equal(got, ref.Marshal())) {
+						fatalf(rt, "wrong-key-stored", "key table does not hold the eon's key for an identity of group %d after its keys message\nhistory: %s", g, history)
 					}
-					if !derived[g] && ok {
-						fatalf(rt, "key-from-fewer-than-t", "key stored for group %d with %d distinct valid senders (t=%d)\nhistory: %s", g, len(valid[g]), th, history)
+					if ok && len(senders[string(id)]) < th {
+						fatalf(rt, "key-from-fewer-than-t", "key stored for an identity of group %d with %d distinct valid senders (t=%d)\nhistory: %s", g, len(senders[string(id)]), th, history)
+					}
+					if !ok && len(senders[string(id)]) >= th {
+						// t distinct valid shares are held for this identity and no key was derived: it arrived in
+						// a message together with an identity that is still short of shares
+						if !isKnown("C01", sigKeyWithheld) {
+							fatalf(rt, sigKeyWithheld, "identity %x of group %d has %d distinct valid shares (t=%d) but no key was derived: the share message that completed it also carried an identity with fewer than t shares\nhistory: %s", id[:2], g, len(senders[string(id)]), th, history)
+						}
+						quirk++
 					}
 				}
 			}
+		}
+		if quirk > 0 {
+			rec.Excluded(sigKeyWithheld)
+			rec.KnownFinding(sigKeyWithheld)
 		}
 		if !checkEngine(t, rec, node.DB) {
 			rt.Fatalf("inconclusive")
 		}
-		nt := false
+		nt := derivedAny && junkBeforeKey
 		var labels []string
-		for g := range groups {
-			if derived[g] {
-				labels = append(labels, "key-derived")
-				if junkBefore[g] {
-					nt = true
-					labels = append(labels, "junk-before-key")
-				}
-			}
+		if derivedAny {
+			labels = append(labels, "key-derived")
+		}
+		if nt {
+			labels = append(labels, "junk-before-key")
+		}
+		if overlap {
+			labels = append(labels, "requests-share-an-identity")
 		}
 		labels = append(labels, "pipeline")
-		rec.Case(fmt.Sprintf("pipe n=%d t=%d g=%d | %s", n, th, ngroups, strings.Join(desc, " ")), nt, labels...)
+		rec.Case(fmt.Sprintf("pipe n=%d t=%d g=%d overlap=%v | %s", n, th, ngroups, overlap, strings.Join(desc, " ")), nt, labels...)
 	})
+}
+
+// TestC01_WithheldKeyWitness replays the stored witness of the open finding sigKeyWithheld on every run:
+// keyper 1's shares for [A], then keyper 2's shares for [A, B], at a node of a 2-of-3 keyper set. While the
+// finding is listed and reproduces it is reported as a known finding; unlisted it is a violation; listed
+// but no longer reproducing it is silent (the defect is gone).
+func TestC01_WithheldKeyWitness(t *testing.T) {
+	rec := recorder("C01")
+	ctx := context.Background()
+	f := getEonFixture(3, 2)
+	node := newSimNode(flCore, 0, 4)
+	defer node.Close()
+	es := &eonSetup{KeyperConfigIndex: 5, Eon: 40, Activation: 100, Members: seq(3), Threshold: 2, Keys: f.Real}
+	if err := writeBatchConfigAndEon(ctx, node.DB, es, false); err != nil {
+		t.Fatalf("setup: %v", err)
+	}
+	if err := writeDKGResult(ctx, node.DB, es, 0, true); err != nil {
+		t.Fatalf("setup: %v", err)
+	}
+	a, b := bytes.Repeat([]byte{0x50}, 32), bytes.Repeat([]byte{0x51}, 32)
+	msg := func(sender int, ids ...[]byte) []byte {
+		m := &p2pmsg.DecryptionKeyShares{InstanceId: simInstanceID, Eon: 5, KeyperIndex: uint64(sender)}
+		for _, id := range ids {
+			m.Shares = append(m.Shares, &p2pmsg.KeyShare{IdentityPreimage: id, Share: f.Real.EpochSecretKeyShare(identitypreimage.IdentityPreimage(id), sender).Marshal()})
+		}
+		return mustMarshalP2P(m)
+	}
+	for _, data := range [][]byte{msg(1, a), msg(2, a, b)} {
+		if v := node.Validate(kprtopics.DecryptionKeyShares, data); !v.Accepted() {
+			t.Fatalf("witness message rejected: %s", v)
+		}
+		if h := node.Handle(kprtopics.DecryptionKeyShares, data); h.Err != nil || h.Panicked != nil {
+			t.Fatalf("witness message not handled: %v %v", h.Err, h.Panicked)
+		}
+	}
+	shares, haveKey := 0, false
+	for _, r := range node.DB.Srv.Rows("decryption_key_share") {
+		if bytes.Equal(r["epoch_id"].([]byte), a) {
+			shares++
+		}
+	}
+	for _, r := range node.DB.Srv.Rows("decryption_key") {
+		haveKey = haveKey || bytes.Equal(r["epoch_id"].([]byte), a)
+	}
+	rec.Case("witness:key-withheld k1:[A] k2:[A,B]", true, "known-finding-witness")
+	if shares >= 2 && !haveKey {
+		if isKnown("C01", sigKeyWithheld) {
+			rec.KnownFinding(sigKeyWithheld)
+			return
+		}
+		rec.Violation(sigKeyWithheld, "n=3 t=2: after keyper 1's shares for [A] and keyper 2's shares for [A, B] the node holds 2 distinct valid shares for A and no key", "")
+		t.Errorf("VERIF-FAIL signature=%s :: witness reproduces and the finding is not listed", sigKeyWithheld)
+	}
 }
